@@ -85,6 +85,7 @@ type LockDecl struct {
 	Field    string
 	Protects []string
 	Invs     []Clause
+	Pkg      string   // for package-level locks: the package path
 	Rely     []Clause // two-state relation (old() = earlier state): guaranteed by every write section, assumed on re-acquisition
 }
 
@@ -118,22 +119,23 @@ type PureFunc struct {
 }
 
 type Contracts struct {
-	Funcs    map[string]*FuncContract
-	Types    map[string]*TypeContract
-	Pures    map[string]*PureFunc
-	GhostVar map[string]GhostDecl // package-level ghost state
-	Axioms   []Clause
-	Lemmas   []Clause
-	IfaceGh  map[string]GhostDecl // ghost fields on interface values (by field name)
-	Files    []string
-	Assumes  []string // free-text assumptions declared in spec files
-	SMT      []string // raw SMT prelude chunks
+	Funcs       map[string]*FuncContract
+	Types       map[string]*TypeContract
+	Pures       map[string]*PureFunc
+	GhostVar    map[string]GhostDecl // package-level ghost state
+	Axioms      []Clause
+	Lemmas      []Clause
+	IfaceGh     map[string]GhostDecl // ghost fields on interface values (by field name)
+	Files       []string
+	GlobalLocks map[string]*LockDecl // package-level mutex variable (full name) -> declaration
+	Assumes     []string             // free-text assumptions declared in spec files
+	SMT         []string             // raw SMT prelude chunks
 }
 
 func newContracts() *Contracts {
 	return &Contracts{
 		Funcs: map[string]*FuncContract{}, Types: map[string]*TypeContract{}, Pures: map[string]*PureFunc{},
-		GhostVar: map[string]GhostDecl{}, IfaceGh: map[string]GhostDecl{},
+		GhostVar: map[string]GhostDecl{}, IfaceGh: map[string]GhostDecl{}, GlobalLocks: map[string]*LockDecl{},
 	}
 }
 
@@ -141,7 +143,7 @@ var clauseKeywords = map[string]bool{
 	"func": true, "type": true, "tags": true, "mode": true, "requires": true, "modifies": true, "ensures": true,
 	"loop": true, "at": true, "ghost": true, "invariant": true, "pure": true, "axiom": true, "lemma": true,
 	"trusted": true, "panics": true, "noreturn": true, "params": true, "results": true, "skip": true, "sweep": true,
-	"ifaceghost": true, "assume-text": true, "opt": true, "smt": true, "replay": true, "intview": true, "lock": true, "lockinv": true, "rely": true,
+	"ifaceghost": true, "assume-text": true, "opt": true, "smt": true, "replay": true, "intview": true, "lock": true, "lockinv": true, "rely": true, "globallock": true, "globallockinv": true,
 }
 
 var labelRe = regexp.MustCompile(`^\[([A-Za-z0-9_.\-]+)\]\s*`)
@@ -467,6 +469,26 @@ func (c *Contracts) loadFile(path, pkg string, trusted bool) error {
 			ld := curT.lockDecl(fs[0])
 			if ld == nil {
 				return fmt.Errorf("%s:%d: lockinv for undeclared lock %s", path, rc.line, fs[0])
+			}
+			cl, err := mkClause(strings.TrimSpace(fs[1]), rc.line)
+			if err != nil {
+				return err
+			}
+			ld.Invs = append(ld.Invs, cl)
+		case "globallock":
+			fs := strings.Fields(rc.text)
+			if len(fs) < 3 || fs[1] != "protects" {
+				return fmt.Errorf("%s:%d: globallock <mutex var> protects <vars…>", path, rc.line)
+			}
+			c.GlobalLocks[pkg+"."+fs[0]] = &LockDecl{Field: fs[0], Protects: fs[2:], Pkg: pkg}
+		case "globallockinv":
+			fs := strings.SplitN(rc.text, " ", 2)
+			if len(fs) < 2 {
+				return fmt.Errorf("%s:%d: globallockinv <mutex var> <expr>", path, rc.line)
+			}
+			ld := c.GlobalLocks[pkg+"."+fs[0]]
+			if ld == nil {
+				return fmt.Errorf("%s:%d: globallockinv for undeclared lock %s", path, rc.line, fs[0])
 			}
 			cl, err := mkClause(strings.TrimSpace(fs[1]), rc.line)
 			if err != nil {
